@@ -2384,6 +2384,18 @@ bus_transaction_send_from_driver (BusTransaction *transaction,
   /* bus driver never wants a reply */
   dbus_message_set_no_reply (message, TRUE);
 
+  /* Make sure the message has a non-zero serial number, otherwise
+   * bus_transaction_capture_error_reply() will not be able to mock up
+   * a corresponding reply for it. Normally this would be delivered to a
+   * client, but we're not going to do that for the driver's own messages. */
+  if (dbus_message_get_serial (message) == 0)
+    {
+      dbus_uint32_t next_serial;
+
+      next_serial = _dbus_connection_get_next_client_serial (connection);
+      dbus_message_set_serial (message, next_serial);
+    }
+
   /* Capture it for monitors, even if the real recipient's receive policy
    * does not allow it to receive this message from us (which would be odd).
    */
